@@ -489,7 +489,7 @@ func (w *world) settle(bound time.Duration) string {
 		return res
 	case <-w.hungCh:
 		return "pending"
-	case <-time.After(bound):
+	case <-hx.After(bound):
 		return "stalled"
 	}
 }
@@ -497,10 +497,13 @@ func (w *world) settle(bound time.Duration) string {
 // settleThread: thread mode has no completion signal (the thread belongs to the NodeManager), so
 // quiescence = a request hangs at the source, or nothing happened at source/processor for quietTime.
 func (w *world) settleThread(bound time.Duration) string {
-	deadline := time.Now().Add(bound)
+	// idle time and the bound are counted in harness running time (see hx.Until): a nap of 5 ms is
+	// charged with at most 10 ms, so CPU starvation cannot make a busy manager look quiet
 	w.mu.Lock()
 	w.last = time.Now()
+	seen := w.last
 	w.mu.Unlock()
+	idle := time.Duration(0)
 	for {
 		select {
 		case <-w.hungCh:
@@ -508,19 +511,29 @@ func (w *world) settleThread(bound time.Duration) string {
 		default:
 		}
 		w.mu.Lock()
-		idle := time.Since(w.last)
+		if w.last != seen {
+			seen = w.last
+			idle = 0
+		}
 		h := w.hung != nil
 		w.mu.Unlock()
 		if !h && idle > quietTime {
 			return "quiet"
 		}
-		if time.Now().After(deadline) {
+		if bound <= 0 {
 			if h {
 				return "pending"
 			}
 			return "quiet"
 		}
+		t0 := time.Now()
 		time.Sleep(5 * time.Millisecond)
+		el := time.Since(t0)
+		if el > 10*time.Millisecond {
+			el = 10 * time.Millisecond
+		}
+		idle += el
+		bound -= el
 	}
 }
 
@@ -898,16 +911,12 @@ func step(wp **world, line string) string {
 			w.mu.Lock()
 			ev := w.events
 			w.mu.Unlock()
-			deadline := time.Now().Add(pollWait)
-			for time.Now().Before(deadline) {
+			hx.Until(pollWait, func() bool {
 				w.mu.Lock()
 				changed := w.events != ev
 				w.mu.Unlock()
-				if changed {
-					break
-				}
-				time.Sleep(10 * time.Millisecond)
-			}
+				return changed
+			})
 			w.mu.Lock()
 			if w.hung != nil && w.hung.c.isCancelled() {
 				w.hung = nil
@@ -929,7 +938,7 @@ func step(wp **world, line string) string {
 			w.mu.Lock()
 			w.hung = nil
 			w.mu.Unlock()
-		case <-time.After(pollWait):
+		case <-hx.After(pollWait):
 			w.mu.Lock()
 			h := w.hung != nil
 			w.mu.Unlock()
@@ -950,7 +959,7 @@ func step(wp **world, line string) string {
 		select {
 		case res := <-r.done:
 			ret = res
-		case <-time.After(roundBound):
+		case <-hx.After(roundBound):
 			ret = "stalled"
 		}
 		w.rnd = nil
